@@ -80,7 +80,12 @@ def run(ck):
             d2 = L(sym.mem_read(p.mem, fld('datasize')))
             if not (eng.entails(facts, lin.lt(h2, d2)) and eng.entails(facts, lin.le(t2, d2)) and eng.entails(facts, -t2) and eng.entails(facts, -h2)):
                 bad_b = "after %s: head' = %s, tail' = %s do not provably satisfy head' < datasize, tail' <= datasize" % (p.describe(), h2, t2)
-            if fn == 'octet_ring_size' and p.ret is not None:
+            rr = p.ret
+            while rr is not None and rr[0] == 'cast':
+                rr = rr[2]
+            is_counter = rr is not None and rr[0] == 'f' and rr[1] == ('v', 'c') and rr[2] not in ('head', 'tail', 'datasize', 'data', 'override_if_full')
+            if fn == 'octet_ring_size' and p.ret is not None and not is_counter:
+                # (a size kept in a counter of its own is the queue length by induction over the operations: C19.d)
                 r = L(p.ret)
                 if not (eng.entails(facts, r - ds) and eng.entails(facts, -r)):
                     bad_b = 'size() = %s not proved within [0, capacity]' % r
@@ -243,6 +248,7 @@ def rule_shapes(ck, u, so, inv, head, tail, ds):
         ps = e0.paths(fn)
         ok = len(ps) == 1 and ps[0].ret in (want, ('cmp', '==', want[3], want[2]))
         ck.verdict(ok, 'C19.d', fn, cast.where(u.fn(fn)), '%s iff %s' % (fn.split('_')[-1], fmt(want)) if ok else '%s is %s' % (fn, fmt(ps[0].ret) if ps and ps[0].ret else None))
+    steps = []          # (operation, queue step, path, change of the element count)
     # get
     ps = eng.paths('octet_ring_get')
     bad = None
@@ -256,10 +262,12 @@ def rule_shapes(ck, u, so, inv, head, tail, ds):
             bad = 'get writes into the element array'
         if empty:
             kinds.add('empty')
+            steps.append(('get', 'empty', p, 0))
             if p.ret != C(0) or h2 != H or t2 != T:
                 bad = 'get on an empty ring returns %s / changes the indices' % fmt(p.ret)
             continue
         kinds.add('take')
+        steps.append(('get', 'take', p, -1))
         if strip(p.ret) != ('i', DATA, T):
             bad = 'get returns %s, the oldest element is data[tail]' % fmt(p.ret)
         if h2 != H:
@@ -293,6 +301,7 @@ def rule_shapes(ck, u, so, inv, head, tail, ds):
         ovr = any(c[0] == 'cmp' and c[1] == '!=' and c[2] == OV and c[3] == C(0) for c in cs)
         if full and not ovr:
             kinds.add('drop')
+            steps.append(('put', 'drop', p, 0))
             if st or h2 != H or t2 != T:
                 bad = 'put on a full ring without override modifies the ring (it must be dropped)'
             continue
@@ -303,6 +312,7 @@ def rule_shapes(ck, u, so, inv, head, tail, ds):
             bad = "put sets head' = %s, expected (head + 1) %% datasize" % fmt(h2)
         if full and ovr:
             kinds.add('evict')
+            steps.append(('put', 'evict', p, 0))
             # the oldest element (at tail == head) is given up: tail advances past it
             evict_empty = ('cmp', '==', nxt(T), H) in cs
             if evict_empty:
@@ -312,6 +322,7 @@ def rule_shapes(ck, u, so, inv, head, tail, ds):
                 bad = "override put leaves tail' = %s, expected (tail + 1) %% datasize (oldest element evicted)" % fmt(t2)
         else:
             was_empty = ('cmp', '==', T, D) in cs
+            steps.append(('put', 'first' if was_empty else 'append', p, 1))
             if was_empty:
                 kinds.add('first')
                 if strip(t2) != H:
@@ -345,23 +356,54 @@ def rule_shapes(ck, u, so, inv, head, tail, ds):
                               if f_ == OV else 'the ring is no longer the one that was set up'))
     ck.verdict(bad is None, 'C19.d', 'octet_ring_clear', cast.where(u.fn('octet_ring_clear')),
                'clear sets the empty encoding; capacity, storage and override mode unchanged, no element written' if bad is None else bad)
-    # size formula
+    # size: computed from head and tail by case - or kept in a counter of its own, which is the queue's length by induction
+    # when every operation changes it by what its queue step changes the length (init / clear: 0)
     ps = eng.paths('octet_ring_size')
     bad = None
-    for p in ps:
-        cs = conds_of(p)
-        if ('cmp', '==', T, D) in cs:
-            if p.ret != C(0):
-                bad = 'size of an empty ring is %s' % fmt(p.ret)
-        elif ('cmp', '<', T, H) in cs:
-            d = L(p.ret) - (head - tail)
+    rets = {strip(p.ret) for p in ps if p.ret is not None}
+    counter = None
+    if len(rets) == 1:
+        r0 = list(rets)[0]
+        if r0[0] == 'f' and r0[1] == ('v', 'c') and r0 not in (H, T, D, DATA, OV):
+            counter = r0
+    if counter is not None:
+        def after(p_):
+            return sym.mem_read(p_.mem, counter)
+        for op, kind_, p_, delta in steps:
+            d = L(after(p_)) - L(counter) - delta
             if not (d.is_const() and d.c == 0):
-                bad = 'size with tail < head is %s, expected head - tail' % fmt(p.ret)
-        else:
-            d = L(p.ret) - (ds - tail + head)
-            if not (d.is_const() and d.c == 0):
-                bad = 'size of a wrapped/full ring is %s, expected datasize - tail + head' % fmt(p.ret)
-    ck.verdict(bad is None, 'C19.d', 'octet_ring_size', cast.where(u.fn('octet_ring_size')), 'size = 0 / head - tail / datasize - tail + head by case' if bad is None else bad)
+                bad = bad or ('size() reports the counter %s; a %s step of %s (%s) leaves it at %s, the queue then holds %s%+d elements: size, the iterators\' step count '
+                              'and the queue disagree from there on' % (fmt(counter), kind_, op, '; '.join(fmt(c) for c in p_.cond_terms())[:120], fmt(after(p_)), fmt(counter), delta))
+        for fn_, what in (('octet_ring_clear', 'clear'), ('octet_ring_init', 'init')):
+            if u.fn(fn_) is None:
+                continue
+            for p_ in eng.paths(fn_):
+                if p_.end == 'loopback':
+                    continue
+                if strip(after(p_)) != C(0):
+                    bad = bad or ('size() reports the counter %s; %s empties the ring but leaves the counter at %s: an empty ring reports elements, and an iterator set up '
+                                  'on it walks that many steps over the sentinel index' % (fmt(counter), what, fmt(after(p_))))
+        for p_ in eng.paths('octet_ring_override_if_full'):
+            if strip(after(p_)) != counter:
+                bad = bad or 'the mode change alters the element counter %s' % fmt(counter)
+        ck.verdict(bad is None, 'C19.d', 'octet_ring_size', cast.where(u.fn('octet_ring_size')),
+                   'size = the counter %s, which every operation moves by its queue step (+1 append, -1 take, 0 drop / evict, 0 at init and clear): the queue length by induction' % fmt(counter)
+                   if bad is None else bad)
+    else:
+        for p in ps:
+            cs = conds_of(p)
+            if ('cmp', '==', T, D) in cs:
+                if p.ret != C(0):
+                    bad = 'size of an empty ring is %s' % fmt(p.ret)
+            elif ('cmp', '<', T, H) in cs:
+                d = L(p.ret) - (head - tail)
+                if not (d.is_const() and d.c == 0):
+                    bad = 'size with tail < head is %s, expected head - tail' % fmt(p.ret)
+            else:
+                d = L(p.ret) - (ds - tail + head)
+                if not (d.is_const() and d.c == 0):
+                    bad = 'size of a wrapped/full ring is %s, expected datasize - tail + head' % fmt(p.ret)
+        ck.verdict(bad is None, 'C19.d', 'octet_ring_size', cast.where(u.fn('octet_ring_size')), 'size = 0 / head - tail / datasize - tail + head by case' if bad is None else bad)
     # override flag and inspect
     ps = eng.paths('octet_ring_override_if_full')
     ok = all(sym.mem_read(p.mem, OV) == ('v', 'state') and sym.mem_read(p.mem, T) == T and sym.mem_read(p.mem, H) == H for p in ps)
